@@ -249,6 +249,21 @@ def main(argv=None):
         "not_decided_by_this_family": meta.get("not_applicable_parts", []),
         "explanation": meta.get("explanation", ""),
     }
+    if level in ("fault_enumeration", "exploration"):
+        runs, distinct, fsamples = 0, 0, []
+        for r in results:
+            for u in r.get("results", []):
+                for nte in u.get("notes", []):
+                    if isinstance(nte, str) and nte.startswith("STATS "):
+                        d = json.loads(nte[6:])
+                        runs += d.get("runs", 0)
+                        distinct += d.get("distinct", 0)
+                        fsamples += d.get("samples", [])
+        coverage.update({"evaluations": runs, "distinct_nontrivial": distinct,
+                         "rule": meta.get("rule", "one execution of the real code per (scenario, crash point); distinct = distinct "
+                                          "(scenario, crash point) pairs; every one is non-trivial: it crosses at least one "
+                                          "substitution / restoration"),
+                         "samples": (fsamples or samples)[:10], "exhaustive": True})
     ev = {"property_id": prop, "tier": tier, "seed": seed, "level": level, "coverage": coverage,
           "assumptions": meta.get("assumptions", []), "wall_s": round(wall, 2), "violations": len(violations)}
     evdir = os.environ.get("PYDV_EVIDENCE_DIR", os.path.join(VERIF, "evidence"))
